@@ -550,7 +550,16 @@ def run_host(ctx: Ctx, case: dict) -> list[str]:
         q = step["q"]
         try:
             gate = build_impl(gcase)
-            host.add(gate, 2 * q, group=step["group"])
+            blk = step.get("block")
+            if blk:
+                # the gate is first put into a building block (at local qubit `pad`, grouped or not) and the block
+                # is then placed in the host at an offset, grouped or not
+                pad, width_q, g_inner = blk
+                block = lw.Circuit(2 * width_q)
+                block.add(gate, 2 * pad, group=g_inner)
+                host.add(block, 2 * (q - pad), group=step["group"])
+            else:
+                host.add(gate, 2 * q, group=step["group"])
         except Exception as e:  # noqa: BLE001
             return [f"oracle: host: adding {describe(gcase)} on qubit {q} raised {exc_class(e)} (program {case['gates']})"]
         g = gcase["gate"]
@@ -604,6 +613,13 @@ def gen_host(rng) -> dict:
         else:
             gc = dict(rng.choice(singles)) if rng.random() < 0.6 else gen_rotation(rng)
             gates.append({"gate_case": gc, "q": rng.randint(0, nq - 1), "group": rng.random() < 0.5})
+    # some gates travel inside a building block that is placed at an offset
+    for st in gates:
+        if rng.random() < 0.35:
+            gq = 1 if st["gate_case"]["gate"] in FIXED_SINGLE or st["gate_case"]["gate"] in ROT else 2
+            pad = rng.randint(0, min(1, st["q"]))
+            trail = rng.randint(0, min(1, nq - (st["q"] + gq)))
+            st["block"] = [pad, pad + gq + trail, rng.random() < 0.6]
     # at most ONE post-selected gate (two of them sharing a qubit do not compose to a product of gates): it is
     # exact on the dual-rail subspace, its other accepted outputs are excluded by its own rules, not by heralds
     if rng.random() < 0.5:
@@ -616,6 +632,12 @@ def gen_host(rng) -> dict:
 
 
 HOST_CORPUS = [
+    # gates inside grouped building blocks placed at an offset, ungrouped and grouped
+    {"stream": "host", "nq": 3, "gates": [
+        {"gate_case": {"gate": "H"}, "q": 1, "group": False, "block": [1, 2, True]},
+        {"gate_case": {"gate": "Ry", "re": "3/5", "im": "4/5"}, "q": 2, "group": False, "block": [1, 2, True]},
+        {"gate_case": {"gate": "S"}, "q": 2, "group": True, "block": [0, 1, True]},
+        {"gate_case": {"gate": "X"}, "q": 0, "group": False}]},
     # many ancillas between the two qubits of the gate added last
     {"stream": "host", "nq": 4, "gates": [
         {"gate_case": {"gate": "CZ_Heralded"}, "q": 0, "group": True},
